@@ -69,17 +69,20 @@ not_applicable_reason = {
 # clauses added in round 4 (DESIGN §10.10)
 extra = {
  "C01": "The limit handed to the inflater of a log block leaves room for the stream terminator and the block is read to EOF, so the on-disk length of the block is exact (INFLATE-SLACK).",
- "C02": "The in-block scan of a seek advances with the same decoder as iteration: one decoder of value sizes per record kind (SINGLE-DECODER); the predicate of the restart search may be a closure or a method value. A table answers 'no records' without reading a block only when the section is absent (SEEK-NO-SHORTCUT).",
- "C03": "Every record a sub-iterator returned with ok is queued on every path of init and advance (MERGE-NO-DROP).",
+ "C02": "The in-block scan of a seek advances with the same decoder as iteration: one decoder of value sizes per record kind (SINGLE-DECODER); the predicate of the restart search may be a closure or a method value. A table answers 'no records' without reading a block only when the section is absent (SEEK-NO-SHORTCUT). The record sought is never written by a table's seek (SEEK-KEY-INTACT); the restart table is addressed without wrap-around in narrow types (RESTART-ARITH).",
+ "C03": "Every record a sub-iterator returned with ok is queued on every path of init and advance (MERGE-NO-DROP). Every table of a view is asked for the same key: the seek record is an input (SEEK-KEY-INTACT).",
  "C06": "The update-index gate compares with the transaction's running next index and rejects an inverted range (GATE-IDX).",
  "C07": "What is spliced into the new list is the image of the list validated under the lock (LIST-VALID).",
- "C11": "RefsFor keeps no per-lookup state on the shared Reader (REFSFOR-STATELESS). Every successful return of the merged RefsFor hands out the re-checking filter (DOUBLE-CHECK on all returns).",
+ "C11": "RefsFor keeps no per-lookup state on the shared Reader (REFSFOR-STATELESS). Every successful return of the merged RefsFor hands out the re-checking filter (DOUBLE-CHECK on all returns). The number of positions of an object record is stored in exactly one place (OBJ-COUNT-AGREE) and every ref block of an object is recorded (OBJ-INDEX-EVERY-BLOCK).",
  "C12": "The name check keeps no state on the handle between transactions (NAMECHECK-STATELESS). A deleted name stays deleted through compaction (COMPACT-RAW, DT-TOMB-REF). Known finding (TX-VIEW): the tables of one multi-table Addition are not checked against each other.",
  "C13": "The compaction writes with the handle's configuration unchanged (CONFIG-SAME). An expiring compaction of a possibly non-empty stack reports success only after the list was replaced, unless it gave up under the lock protocol (EXPIRY-APPLIED).",
- "C04": "The tables outside a compacted range stay listed whenever there can be any (LIST-CONTENT completeness).",
+ "C04": "The tables outside a compacted range stay listed whenever there can be any (LIST-CONTENT completeness). The update-index gate uses the transaction's running next index (GATE-IDX).",
  "C15": "The Go side never writes or accepts a stored log block, which the C reader cannot read (LOG-DEFLATED).",
+ "C08": "A lock path is never created or written by name (LOCK-EXCL covers os.Create, WriteFile on *.lock).",
+ "C09": "The names an up-to-date check compares were read from the list file during that very call (no cached copy).",
+ "C16": "A commit happens only under a validated list (LIST-VALID, UPTODATE-MEANS-EQUAL): a stale commit orphans tables.",
  "C17": "The chosen range is applied to the stack it was chosen for: the compaction goes on only under a validated list (LIST-VALID, LIST-CONTENT).",
- "C14": "The index position recorded for a section is taken per index level, inside the loop that writes the levels, also through helpers (INDEX-ROOT). No stored log block: on the log-type branch the block finisher returns only the deflater's buffer and the opener always inflates (LOG-DEFLATED).",
+ "C14": "The index position recorded for a section is taken per index level, inside the loop that writes the levels, also through helpers (INDEX-ROOT). No stored log block: on the log-type branch the block finisher returns only the deflater's buffer and the opener always inflates (LOG-DEFLATED). Object records: count in the key bits or as a varint, never both (OBJ-COUNT-AGREE); every ref block of an object is recorded (OBJ-INDEX-EVERY-BLOCK).",
  "C18": "Predicates handed to sort.Search (closures or method values) are analysed for 0 <= i < n; helpers that are not in range for arbitrary arguments are decided in every caller's context on the read paths. Parallel slice fields indexed with one index stay the same length (SIDE-ARRAY); the index descent has a ranking function: an unsigned field of the iterator handed on decreases at every back edge (DESCEND-DECREASES).",
 }
 pending = "static check not built yet in this round (see DESIGN §9 build order); nothing is claimed"
